@@ -155,6 +155,19 @@ CHECKS["C01"] = dict(
     technique="TLA+-enumerated input spaces driven through isolated workers, observations validated by TLC; protocol termination by TLC on Proto.tla",
     design="7/C01")
 
+CHECKS["C17"] = dict(
+    category="model_checking",
+    text="Alias.tla is the substitution machine (examined positions, origin sets blocking self-expansion, trailing-blank rule, reserved "
+         "words / assignments / quoted words copied).  TLC runs it for every alias table over the names {a, b} (values up to MaxVal "
+         "tokens, with and without trailing blank, incl. self-reference and cycles) and every source up to MaxSrc tokens: termination "
+         "at model level (bounded growth, every run reaches the end) and one conformance case per run; the real parser is run with "
+         "the table on the source and without aliases on the machine's result (isolated workers, watchdog); AliasCheck validates "
+         "equal outcome and skeleton.",
+    note="Trusted: Alias.tla's reading of XCU 2.3.1 at token level (blank-separated tokens), the metamorphic oracle, TLC.  Aliases "
+         "that expand to `in`/`do` in the third-word positions of for/case are outside the token alphabet.",
+    technique="TLA+ rewriting machine explored exhaustively by TLC, metamorphic conformance validated by TLC",
+    design="7/C17")
+
 NOT_APPLICABLE = {}
 
 ALL = ["C%02d" % i for i in range(1, 21)]
